@@ -9,7 +9,7 @@ python3-vt - <<'PY'
 import sys, time
 import mirdump, native
 t = time.time()
-for crate, feats in (('ractor', ('cluster',)), ('ractor', ())):
+for crate, feats in (('ractor', ('cluster',)), ('ractor', ()), ('ractor_cluster', ())):
     try:
         p, info = mirdump.load(crate, features=feats)
         print('mir', crate, feats, info['bodies'], 'bodies', info['dump_s'], 's')
